@@ -22,7 +22,8 @@ SessionProp(stream, sh, log) ==
   /\ \A i \in 1..Len(log) : log[i].t = "out" => log[i].ret = "same"          \* each slice is the bytes of the stream at its place
   /\ EndOf(log) \in AllowedEnd(stream, sh)                                   \* never a panic, never a message from a truncated tail
   /\ Len(SelectSeq(log, LAMBDA x : x.t = "end")) = 1 /\ log[Len(log)].t = "end"
-ReaderOk(e) == SessionProp(e.stream, e.sh, e.log) /\ e.pm = e.sp            \* read_message = parse of each delivered piece, then the same end
+ReaderOk(e) == /\ SessionProp(e.stream, e.sh, e.log) /\ e.pm = e.sp         \* read_message = parse of each delivered piece, then the same end
+               /\ \A i \in 1..Len(e.pm) : e.pm[i].v # "panic"               \* no byte stream makes read_message panic (wherever the panic arises)
 PairOk(e) ==  \* C08: same messages, same kind of terminal outcome, no panic
   /\ Outs(e.alog) = Outs(e.blog) /\ EndOf(e.alog) = EndOf(e.blog) /\ EndOf(e.alog) \in {"eos", "err"}
   /\ \A i \in 1..Len(e.alog) : e.alog[i].t = "out" => e.alog[i].ret = "same"
